@@ -41,6 +41,10 @@ func runCell(c string) (out string) {
 	if (len(f) == 7 || len(f) == 8) && f[0] == "engine" {
 		return runEngineCell(f, -1)
 	}
+	if len(f) == 9 && f[0] == "enginef" {
+		// enginef <kind> <preload> <limit> <passes> <n> <instances> <fs> <tags>: the provider with a chosencases list under the engine
+		return runEngineCellChosen(f[:8], -1, maskTags(f[8]))
+	}
 	if len(f) == 9 && f[0] == "enginec" {
 		// enginec <kind> <preload> <limit> <passes> <n> <instances> <fs> <cancel at shot k | 0 = before Engine.Run>
 		at, _ := strconv.Atoi(f[8])
@@ -107,11 +111,9 @@ func runCell(c string) (out string) {
 		}
 	}
 	var chosen []string
-	if withChosen && f[10] != "-" {
+	if withChosen {
 		// <tags>: the chosencases filter, as indexes of tags (entry i carries tag t<i>)
-		for _, t := range strings.Split(f[10], ",") {
-			chosen = append(chosen, "t"+t)
-		}
+		chosen = maskTags(f[10])
 	}
 	// grpc/json: the ammo file is named through `source.path` in every other configuration
 	opts.SourcePath = kind == "grpcjson" && (n+limit+passes)%2 == 1
@@ -152,7 +154,20 @@ func runDecCell(f []string) string {
 
 // engine <kind> <preload> <limit> <passes> <n> <instances> [<fs>]: the provider under the real engine.
 // Observation: <shots> <sorted seq> <Engine.Run result> <Engine.Wait returned 0|1>
-func runEngineCell(f []string, cancelAt int) string {
+func runEngineCell(f []string, cancelAt int) string { return runEngineCellChosen(f, cancelAt, nil) }
+
+// maskTags: "-" or a comma separated list of tag indexes -> the chosencases list (entry i carries tag t<i>)
+func maskTags(mask string) []string {
+	var chosen []string
+	if mask != "-" {
+		for _, t := range strings.Split(mask, ",") {
+			chosen = append(chosen, "t"+t)
+		}
+	}
+	return chosen
+}
+
+func runEngineCellChosen(f []string, cancelAt int, chosen []string) string {
 	kind := f[1]
 	preload := f[2] == "1"
 	limit, _ := strconv.Atoi(f[3])
@@ -163,7 +178,7 @@ func runEngineCell(f []string, cancelAt int) string {
 	if len(f) == 8 {
 		fsKind, _ = strconv.Atoi(f[7])
 	}
-	b, err := a08.BuildFS(kind, preload, limit, passes, a08.DefaultEntries(n), nil, 0, fsKind)
+	b, err := a08.BuildFS(kind, preload, limit, passes, a08.DefaultEntries(n), chosen, 0, fsKind)
 	if err != nil {
 		return "0 - construct:" + strings.ReplaceAll(err.Error(), " ", "_") + " 0"
 	}
@@ -396,6 +411,24 @@ func genChosen(r *vh.Rand, tier string) []string {
 					out = append(out, fmt.Sprintf("chosen %s %d %d %d %d %d %s %d %d %s", pc.kind, pc.preload, lp[0], lp[1], n, 1+2*(no%2), cancel,
 						(no+m)%a08.EOFLayouts, (no/2+m)%a08.FsKinds, mask))
 					no++
+				}
+			}
+		}
+	}
+	// ... and under the real engine: the instances shoot the chosen entries up to the bound and see end of ammo,
+	// Engine.Run returns nil; with nothing chosen there is no shot, Engine.Run returns (the pool's provider
+	// failed with "no ammo") and Engine.Wait returns — no instance is left in Acquire — whatever limit and passes
+	for i, pc := range pcs {
+		for j, lp := range [][2]int{{0, 0}, {3, 0}, {0, 2}, {5, 2}} {
+			for _, n := range []int{1, 3} {
+				for m, mask := range chosenMasks(n) {
+					if lp[0] == 0 && lp[1] == 0 && m < len(chosenMasks(n))-2 {
+						continue // unbounded and something chosen: never ends by itself
+					}
+					if tier != "thorough" && m < len(chosenMasks(n))-2 && (i+j+m)%3 != 0 {
+						continue // quick: a third of the lists that choose something, every list that chooses nothing
+					}
+					out = append(out, fmt.Sprintf("enginef %s %d %d %d %d %d %d %s", pc.kind, pc.preload, lp[0], lp[1], n, 1+(i+j+m)%3, (i+m)%a08.FsKinds, mask))
 				}
 			}
 		}
